@@ -812,10 +812,101 @@ func sphExhaustive(w *bufio.Writer, client bool, depth, emitEvery int) (historie
 	return
 }
 
+// sphProbeTable: fixed cases, run on every seed. 2, 3 and 4 path probe packets outstanding that all time out in the
+// SAME detectLostPathProbes pass (reached through OnLossDetectionTimeout and, in a second variant, through ReceivedAck
+// of a later 1-RTT packet), with none or half of them acknowledged first; afterwards a second expiry and an ACK for
+// everything, so that a probe reported lost but still tracked, or skipped by the pass, shows up in the
+// exactly-once monitors.
+func sphProbeTable(w *bufio.Writer) {
+	for n := int64(2); n <= 4; n++ {
+		for variant := 0; variant < 4; variant++ {
+			r := newSphRun(w, variant%2 == 1, true, 0, 0, 0)
+			t := int64(1_000_000_000)
+			r.exec(&sphOp{kind: "drop", l: lvInitial, now: t})
+			r.exec(&sphOp{kind: "drop", l: lvHandshake, now: t})
+			var pns []int64
+			for i := int64(0); i < n; i++ {
+				pns = append(pns, r.exec(&sphOp{kind: "send", l: lv1RTT, now: t + i, la: -1, fs: []int64{10 + i}, size: 1200, probe: true}))
+			}
+			halfAcked := variant >= 2
+			if halfAcked {
+				var rs [][2]int64
+				for i := int(n)/2 - 1; i >= 0; i-- {
+					rs = append(rs, [2]int64{pns[i], pns[i]})
+				}
+				if len(rs) > 1 && rs[0][0] == rs[1][1]+1 {
+					rs = [][2]int64{{pns[0], pns[int(n)/2-1]}}
+				}
+				r.exec(&sphOp{kind: "ack", l: lv1RTT, now: t + 20_000_000, ranges: rs})
+			}
+			late := t + 1_200_000_000 // all probes are older than pathProbePacketLossTimeout
+			if variant%2 == 0 {
+				r.exec(&sphOp{kind: "timeout", now: late})
+			} else {
+				// a regular packet sent late and acknowledged: ReceivedAck runs detectLostPathProbes
+				pn := r.exec(&sphOp{kind: "send", l: lv1RTT, now: late - 10_000_000, la: -1, fs: []int64{50}, size: 300})
+				r.exec(&sphOp{kind: "ack", l: lv1RTT, now: late, ranges: [][2]int64{{pn, pn}}})
+			}
+			r.exec(&sphOp{kind: "timeout", now: late + 1_500_000_000})
+			last := r.exec(&sphOp{kind: "send", l: lv1RTT, now: late + 1_600_000_000, la: -1, fs: []int64{60}, size: 300})
+			r.exec(&sphOp{kind: "ack", l: lv1RTT, now: late + 1_650_000_000, ranges: [][2]int64{{pns[0], last}}})
+			r.exec(&sphOp{kind: "timeout", now: late + 3_000_000_000})
+			// every probe frame must be resolved by now
+			for i := int64(0); i < n; i++ {
+				if r.cbCount[10+i] != 1 {
+					r.monfail("sentph/frame-unresolved", fmt.Sprintf("path probe frame %d has %d callbacks after its packet timed out / was acknowledged", 10+i, r.cbCount[10+i]))
+				}
+			}
+			fmt.Fprintf(w, "CASE 1 %s\n", r.caseTerm())
+		}
+	}
+}
+
+// sphFixedTable: more fixed cases, run on every seed.
+//   - key discard with ptoCount == 0 that changes what is outstanding-and-armed: 1-RTT data sent before the handshake is
+//     confirmed is not covered by the alarm; DropPackets(Handshake) confirms the handshake and must arm it; likewise
+//     DropPackets(Initial) while Handshake data is outstanding;
+//   - MigratedPath with a path MTU probe packet, an ACK-only packet and a regular packet outstanding.
+func sphFixedTable(w *bufio.Writer) {
+	for _, client := range []bool{false, true} {
+		r := newSphRun(w, client, true, 0, 0, 0)
+		t := int64(1_000_000_000)
+		r.exec(&sphOp{kind: "send", l: lvInitial, now: t, la: -1, fs: []int64{1}, size: 1200})
+		r.exec(&sphOp{kind: "send", l: lvHandshake, now: t + 1, la: -1, fs: []int64{2}, size: 800})
+		r.exec(&sphOp{kind: "ack", l: lvInitial, now: t + 20_000_000, ranges: [][2]int64{{0, 0}}})
+		r.exec(&sphOp{kind: "ack", l: lvHandshake, now: t + 30_000_000, ranges: [][2]int64{{0, 0}}})
+		r.exec(&sphOp{kind: "send", l: lv1RTT, now: t + 40_000_000, la: -1, sfs: []int64{3}, size: 1000})
+		r.exec(&sphOp{kind: "drop", l: lvInitial, now: t + 50_000_000})
+		r.exec(&sphOp{kind: "drop", l: lvHandshake, now: t + 60_000_000})
+		fmt.Fprintf(w, "CASE 1 %s\n", r.caseTerm())
+
+		r = newSphRun(w, client, true, 0, 0, 0)
+		r.exec(&sphOp{kind: "send", l: lvInitial, now: t, la: -1, fs: []int64{1}, size: 1200})
+		r.exec(&sphOp{kind: "ack", l: lvInitial, now: t + 20_000_000, ranges: [][2]int64{{0, 0}}})
+		r.exec(&sphOp{kind: "send", l: lvHandshake, now: t + 30_000_000, la: -1, fs: []int64{2}, size: 800})
+		r.exec(&sphOp{kind: "drop", l: lvInitial, now: t + 40_000_000})
+		fmt.Fprintf(w, "CASE 1 %s\n", r.caseTerm())
+
+		r = newSphRun(w, client, true, 0, 0, 0)
+		r.exec(&sphOp{kind: "drop", l: lvInitial, now: t})
+		r.exec(&sphOp{kind: "drop", l: lvHandshake, now: t})
+		r.exec(&sphOp{kind: "send", l: lv1RTT, now: t + 1, la: -1, fs: []int64{1}, size: 1200})
+		r.exec(&sphOp{kind: "send", l: lv1RTT, now: t + 2, la: -1, fs: []int64{2}, size: 1400, mtu: true})
+		r.exec(&sphOp{kind: "send", l: lv1RTT, now: t + 3, la: 0, size: 45})
+		r.exec(&sphOp{kind: "send", l: lv1RTT, now: t + 4, la: -1, fs: []int64{3}, size: 1200, probe: true})
+		r.exec(&sphOp{kind: "migrate", now: t + 10_000_000})
+		r.exec(&sphOp{kind: "send", l: lv1RTT, now: t + 20_000_000, la: -1, fs: []int64{4}, size: 300})
+		r.exec(&sphOp{kind: "ack", l: lv1RTT, now: t + 40_000_000, ranges: [][2]int64{{0, 4}}})
+		fmt.Fprintf(w, "CASE 1 %s\n", r.caseTerm())
+	}
+}
+
 func runSentPH(w *bufio.Writer, seed uint64, n int, _ []string) {
 	root := u.NewRng(seed)
 	sphWitness(w)
 	sphMigrateObservation(w)
+	sphProbeTable(w)
+	sphFixedTable(w)
 	dist := map[string]int{}
 	if os.Getenv("VERIF_TIER") == "thorough" {
 		// exhaustive small universe: all 4-op histories through the model (both perspectives), all 6-op histories
